@@ -8,7 +8,7 @@ MCSeeds == {
   [L |-> LA, keep |-> TRUE,  batch |-> << <<7, 2>> >>, weighted |-> TRUE, dtype |-> "i8", den |-> 1, name |-> 1]
 }
 MCIds == 1..2
-MCOps == {"New", "Add", "IAdd", "Copy", "CopyEmpty", "Mul", "IMul", "Div", "Sub", "Fill", "Normalize"}
+MCOps == {"New", "Add", "IAdd", "Copy", "CopyEmpty", "Mul", "IMul", "Div", "Sub", "Fill", "Normalize", "NegRefused", "ForeignRefused", "DivZeroRefused"}
 MCSliceArgs == {<<1, NoneIx>>}
 MCTakeArgs == {<<0>>}
 MCScalars == {<<2, 1, "pyint">>, <<1, 2, "pyfloat">>, <<3, 1, "pyint">>}
